@@ -848,8 +848,11 @@ func (g *G) assign(depth int, rightOpen bool) *Node {
 	}
 	v := g.varExpr(depth+1, false)
 	if a.kind == "ExprAssign" && g.R.Chance(1, 6) {
-		// by reference: $a = &$b
+		// by reference: $a = &$b; PHP 5 also has $a = & new X(...)
 		r := g.varExpr(depth+1, false)
+		if g.O.Fam == 5 && !g.O.Common && !g.O.Formatter && g.R.Chance(1, 4) {
+			r = g.newExpr(depth + 1)
+		}
 		return &Node{Kind: "ExprAssignReference", Kids: []Kid{one("Var", v), one("Expr", r)}, Parts: parts(v, t("="), t("&"), r), Prec: precAssign, Prefix: true}
 	}
 	if a.kind == "ExprAssign" && g.R.Chance(1, 6) {
@@ -1198,7 +1201,15 @@ func (g *G) varExpr(depth int, call bool) *Node {
 			break
 		}
 		base = g.brackets(nw)
-		// at least one link
+		// at least one link: (new X)->p, (new X)[0], (new X)[0][1]->p
+		if g.R.Chance(1, 3) {
+			for i, n := 0, g.R.Range(1, 2); i < n; i++ {
+				base = g.dim(base, g.exprTop(depth+1), false)
+			}
+			if g.R.Bool() {
+				break
+			}
+		}
 		m := g.identifier(g.ident())
 		base = &Node{Kind: "ExprPropertyFetch", Kids: []Kid{one("Var", base), one("Prop", m)}, Parts: parts(base, t("->"), m), Prec: 100}
 		if g.R.Chance(1, 3) {
@@ -1523,6 +1534,49 @@ func (g *G) param(depth int, last bool) *Node {
 
 // constExpr: a constant expression (static scalar): scalars, constants, arrays, operators.
 func (g *G) constExpr(depth int) *Node {
+	if depth < g.O.MaxDepth && !g.O.Formatter && g.R.Chance(1, 8) {
+		switch g.R.Intn(4) {
+		case 0: // ternary, long and short
+			c := g.fit(g.constExpr(depth+1), precTernary, false, false, "ExprTernary.Cond")
+			f := g.fit(g.constExpr(depth+1), precTernary, true, true, "ExprTernary.IfFalse")
+			if g.R.Bool() {
+				return &Node{Kind: "ExprTernary", Kids: []Kid{one("Cond", c), one("IfFalse", f)}, Parts: parts(c, t("?"), t(":"), f), Prec: precTernary}
+			}
+			m := g.fit(g.constExpr(depth+1), precAssign, false, true, "ExprTernary.IfTrue")
+			return &Node{Kind: "ExprTernary", Kids: []Kid{one("Cond", c), one("IfTrue", m), one("IfFalse", f)}, Parts: parts(c, t("?"), m, t(":"), f), Prec: precTernary}
+		case 1: // ! ~ +
+			u := []unop{unops[0], unops[1], unops[3]}[g.R.Intn(3)]
+			pr := u.prec
+			if g.O.Fam == 5 && u.op == "+" {
+				pr = 21 // like the sign '-': the precedence of the binary operator in PHP 5's static-scalar grammar
+			}
+			e := g.fit(g.constExpr(depth+1), precUnary, false, true, u.kind)
+			return &Node{Kind: u.kind, Kids: []Kid{one(u.role, e)}, Parts: parts(t(u.op), e), Prec: pr}
+		case 2: // a dimension of a constant, a string or an array literal
+			var base *Node
+			switch g.R.Intn(4) {
+			case 0:
+				base = g.plainString()
+			case 1:
+				base = g.constFetch()
+			case 2:
+				cls := g.name(true)
+				c := g.identifier(g.ident())
+				base = &Node{Kind: "ExprClassConstFetch", Kids: []Kid{one("Class", cls), one("Const", c)}, Parts: parts(cls, t("::"), c), Prec: 100}
+			default:
+				v := g.constExpr(depth + 2)
+				it := &Node{Kind: "ExprArrayItem", Kids: []Kid{one("Val", v)}, Parts: parts(v)}
+				base = &Node{Kind: "ExprArray", Kids: []Kid{list("Items", []*Node{it})}, Parts: parts(t("["), it, t("]")), Prec: 100}
+			}
+			d := g.constExpr(depth + 1)
+			return &Node{Kind: "ExprArrayDimFetch", Kids: []Kid{one("Var", base), one("Dim", d)}, Parts: parts(base, t("["), d, t("]")), Prec: 100}
+		default: // and / or / xor
+			b := binops[g.R.Intn(3)]
+			l := g.fit(g.constExpr(depth+1), b.prec, false, false, b.kind+".L")
+			r := g.fit(g.constExpr(depth+1), b.prec, true, true, b.kind+".R")
+			return &Node{Kind: b.kind, Kids: []Kid{one("Left", l), one("Right", r)}, Parts: parts(l, g.kw(b.op), r), Prec: b.prec}
+		}
+	}
 	if depth < g.O.MaxDepth && g.R.Chance(1, 4) {
 		b := g.pickBinop()
 		if b.prec >= 12 {
@@ -1551,6 +1605,11 @@ func (g *G) constExpr(depth int) *Node {
 		}
 		for i, n := 0, ni; i < n; i++ {
 			v := g.constExpr(depth + 1)
+			if g.R.Chance(1, 3) {
+				k := g.fit(g.constExpr(depth+1), precAssign, false, false, "ExprArrayItem.Key")
+				items = append(items, &Node{Kind: "ExprArrayItem", Kids: []Kid{one("Key", k), one("Val", v)}, Parts: parts(k, t("=>"), v)})
+				continue
+			}
 			items = append(items, &Node{Kind: "ExprArrayItem", Kids: []Kid{one("Val", v)}, Parts: parts(v)})
 		}
 		body := sepList(items, ",")
@@ -1564,7 +1623,7 @@ func (g *G) constExpr(depth int) *Node {
 		return &Node{Kind: "ExprArray", Kids: []Kid{list("Items", items)}, Parts: parts(t("["), body, t("]")), Prec: 100}
 	case 4:
 		cls := g.name(true)
-		c := g.identifier(g.ident())
+		c := g.identifier(g.R.Pick(g.ident(), g.ident(), "class", "CLASS"))
 		return &Node{Kind: "ExprClassConstFetch", Kids: []Kid{one("Class", cls), one("Const", c)}, Parts: parts(cls, t("::"), c), Prec: 100}
 	case 5:
 		return g.magic()
